@@ -76,3 +76,43 @@ void h_dir_context(void)
 	__CPROVER_assert(0, "canary");
 #endif
 }
+
+/* ================================================================== dir_fix: reversals stay inside the segment, runs are processed left to right (C18) */
+struct ghost_df_in { int lo, hi; int *ord; } DFI;	/* constants: the segment handed to the outermost dir_fix */
+struct ghost_df { int reversals; } DF;
+/* dir_match as seen by dir_fix: no match, or a NON-EMPTY run [r_beg, r_end) inside [beg, end) with a group [c_beg, c_end) inside the run
+ * (assumption MARK_NONEMPTY: the direction-mark patterns of conf.h do not match the empty string) */
+int dir_match_contract(char **chrs, int beg, int end, int ctx, int *rec, int *r_beg, int *r_end, int *c_beg, int *c_end, int *dir)
+__CPROVER_requires(DFI.lo <= beg && beg < end && end <= DFI.hi)
+__CPROVER_requires(rec != 0 && r_beg != 0 && r_end != 0 && c_beg != 0 && c_end != 0 && dir != 0)
+__CPROVER_assigns(*rec, *r_beg, *r_end, *c_beg, *c_end, *dir)
+__CPROVER_ensures(__CPROVER_return_value == 0 || __CPROVER_return_value == 1)
+__CPROVER_ensures(__CPROVER_return_value == 0 ==> (beg <= *r_beg && *r_beg < *r_end && *r_end <= end &&
+	*r_beg <= *c_beg && *c_beg <= *c_end && *c_end <= *r_end && (*dir == 1 || *dir == -1) && (*rec == 0 || *rec == 1)))
+;
+/* dir_reverse as seen by dir_fix: its own contract (unit dir.dir_reverse: exact mirror image of [beg,end), nothing else touched) plus a count */
+void dir_reverse_rec_contract(int *ord, int beg, int end)
+__CPROVER_requires(ord == DFI.ord && DFI.lo <= beg && beg <= end && end <= DFI.hi)
+__CPROVER_assigns(__CPROVER_object_whole(ord), DF.reversals)
+__CPROVER_ensures(DF.reversals == (__CPROVER_old(DF.reversals) < 1000000 ? __CPROVER_old(DF.reversals) + 1 : 1000000))
+;
+/* induction over the nesting of runs: every call (the outermost and the recursive ones, which enter by this contract) works inside the segment */
+void dir_fix_contract(char **chrs, int *ord, int dir, int beg, int end)
+__CPROVER_requires(0 <= DFI.lo && DFI.lo <= DFI.hi && DFI.hi <= 0x1000000 && __CPROVER_is_fresh(ord, sizeof(int) * (DFI.hi + 1)))
+__CPROVER_requires(ord == DFI.ord && DFI.lo <= beg && end <= DFI.hi && beg <= DFI.hi + 1 && chrs != 0)
+__CPROVER_assigns(__CPROVER_object_whole(ord), DF)
+;
+void h_dir_fix(void)
+{
+	char *chrs[1];
+	int *ord;
+	int dir = nondet_int(), beg = nondet_int(), end = nondet_int();
+	GHOST_INIT();
+	DFI.lo = nondet_int(); DFI.hi = nondet_int();
+	int *o; DFI.ord = o;
+	DF.reversals = 0;
+	dir_fix(chrs, ord, dir, beg, end);
+#ifdef CANARY
+	__CPROVER_assert(0, "canary");
+#endif
+}
